@@ -10,6 +10,8 @@ from vsc.model.expr_fieldref_model import ExprFieldRefModel
 from vsc.model.expr_literal_model import ExprLiteralModel
 from vsc.model.expr_model import ExprModel
 from vsc.model.expr_partselect_model import ExprPartselectModel
+from vsc.model.expr_unary_model import ExprUnaryModel
+from vsc.model.unary_expr_type import UnaryExprType
 from vsc.model.field_model import FieldModel
 from vsc.model.field_scalar_model import FieldScalarModel
 from vsc.model.rand_set import RandSet
@@ -150,6 +152,19 @@ class SolveGroupSwizzlerPartsel(object):
                     ExprFieldRefModel(f),
                     BinExprType.Eq,
                     ExprLiteralModel(int(val), f.is_signed, f.width))]
+                
+            guard = getattr(dist_scope_c, "guard_cond", None)
+            if guard is not None:
+                # The dist sits inside if/else or implies: its target only 
+                # applies while the condition holds. Otherwise, the field is
+                # randomized over its domain as any other field 
+                ret = [ExprBinModel(
+                    ExprUnaryModel(UnaryExprType.Not, guard),
+                    BinExprType.Or,
+                    ret[0])]
+                if f in bound_m.keys() and not bound_m[f].isEmpty():
+                    for e in self.create_rand_domain_constraint(f, bound_m[f]):
+                        ret.append(ExprBinModel(guard, BinExprType.Or, e))
         else:
             if f in bound_m.keys():
                 f_bound = bound_m[f]
